@@ -45,3 +45,21 @@ Theorem C04_tree_parent_inside :
     parent_of t i = Some (Some p) -> inside i p = true /\ bcontains p i = true.
 Proof. exact tree_parent_inside. Qed.
 Print Assumptions C04_tree_parent_inside.
+
+(* CheckSplitOwner (with its recursive_split marker and the unprotected "#942" descent into the split list of a split
+   without points) terminates in every state whose owner graph is a forest and in which no chain of point-less OutRecs
+   through split lists returns to itself (rk decreases along such chains) -- whatever the geometric tests answer. *)
+Theorem C04_check_split_terminates : forall inside bcontains (rk : nat -> nat) m i spl,
+  acyclic m -> (forall a o, owner_of m a = Some o -> o < length m) ->
+  (forall s s2, pts_of m s = false -> In s2 (splits_of m s) -> pts_of m s2 = false -> rk s2 < rk s) ->
+  exists fuel r, check_split_owner inside bcontains fuel m i spl = Some r.
+Proof. exact check_split_terminates. Qed.
+Print Assumptions C04_check_split_terminates.
+
+(* Without the hypothesis on point-less OutRecs the statement is false: an OutRec without points whose split list contains
+   itself sends CheckSplitOwner into an unbounded recursion (replayed on the real function by the check: stack overflow).
+   Whether the sweep can produce such a state is not known; no dumped state of any run contained one. *)
+Theorem C04_check_split_terminates_refuted_pointless_cycle : forall inside bcontains,
+  exists m i spl, forall fuel, check_split_owner inside bcontains fuel m i spl = None.
+Proof. exact check_split_refuted_pointless_cycle. Qed.
+Print Assumptions C04_check_split_terminates_refuted_pointless_cycle.
